@@ -89,6 +89,46 @@ def main():
                         attrs[an] = {'kind': 'union_instance', 'tag': raw._tag,
                                      'class': type(raw).__name__}
                 cd['attrs'] = attrs
+                if cd['kind'] == 'struct':
+                    # exercise the attributes on an instance built without arguments:
+                    # readable (value, or the documented "missing required field"),
+                    # writable (the field's own default is a valid value), deletable
+                    ex = {}
+                    try:
+                        inst = obj()
+                    except Exception as e:
+                        ex = {'__init__': '%s: %s' % (type(e).__name__, str(e)[:120])}
+                        inst = None
+                    if inst is not None:
+                        for an, a in attrs.items():
+                            if a['kind'] != 'attribute':
+                                continue
+                            raw = inspect.getattr_static(obj, an)
+
+                            def read():
+                                try:
+                                    getattr(inst, an)
+                                    return 'value'
+                                except AttributeError as e:
+                                    return 'missing_required' if str(e).startswith('missing required field') \
+                                        else 'AttributeError: ' + str(e)[:100]
+                                except Exception as e:
+                                    return '%s: %s' % (type(e).__name__, str(e)[:100])
+                            r = {'read': read()}
+                            if raw.default is not bb.NO_DEFAULT:
+                                try:
+                                    setattr(inst, an, raw.default)
+                                    r['write_default'] = 'ok'
+                                except Exception as e:
+                                    r['write_default'] = '%s: %s' % (type(e).__name__, str(e)[:100])
+                            try:
+                                delattr(inst, an)
+                                r['delete'] = 'ok'
+                            except Exception as e:
+                                r['delete'] = '%s: %s' % (type(e).__name__, str(e)[:100])
+                            r['read_after_delete'] = read()
+                            ex[an] = r
+                    cd['exercise'] = ex
                 if cd['kind'] == 'union':
                     cd['catch_all'] = getattr(obj, '_catch_all', None)
                 md['classes'][name] = cd
